@@ -303,7 +303,42 @@ void NTT_Goldilocks::reversePermutation(Goldilocks::Element *dst, Goldilocks::El
         }
         else
         {
-            assert(0); // Option not implemented yet
+            // in-place permutation of an extended domain: only the first size / extension rows hold data,
+            // the remaining rows are taken as zero
+            assert(offset_cols == 0 && ncols == ncols_all); // single block
+            u_int64_t nrows_ = size / extension;
+#pragma omp parallel for schedule(static)
+            for (u_int64_t i = 0; i < size; i++)
+            {
+                u_int64_t r = BR(i, domainSize);
+                u_int64_t offset_r = r * ncols;
+                u_int64_t offset_i = i * ncols;
+                if (r < i)
+                {
+                    Goldilocks::Element tmp[ncols];
+                    if (r < nrows_)
+                    {
+                        std::memcpy(&tmp[0], &src[offset_r], ncols * sizeof(Goldilocks::Element));
+                    }
+                    else
+                    {
+                        std::memset(&tmp[0], 0, ncols * sizeof(Goldilocks::Element));
+                    }
+                    if (i < nrows_)
+                    {
+                        std::memcpy(&dst[offset_r], &src[offset_i], ncols * sizeof(Goldilocks::Element));
+                    }
+                    else
+                    {
+                        std::memset(&dst[offset_r], 0, ncols * sizeof(Goldilocks::Element));
+                    }
+                    std::memcpy(&dst[offset_i], &tmp[0], ncols * sizeof(Goldilocks::Element));
+                }
+                else if (r == i && i >= nrows_)
+                {
+                    std::memset(&dst[offset_i], 0, ncols * sizeof(Goldilocks::Element));
+                }
+            }
         }
     }
 }
